@@ -321,6 +321,8 @@ class Ranges:
         want = expected
         if c[0] == "un" and c[1] == "Not":
             c, want = c[2], 1 - want
+        if c[0] == "bin" and c[1] == "Lt" and want == 1 and _range_item_below(c[2], c[3]):
+            return False        # `for i in a..n { .. xs[i] .. }` with n = xs.len(): the items of a Range lie below its end
         if c[0] == "bin" and c[1] in ("Lt", "Le", "Gt", "Ge", "Eq", "Ne"):
             ra, rb = self.rng(c[2]), self.rng(c[3])
             if ra is None or rb is None:
@@ -334,6 +336,33 @@ class Ranges:
                 return not always_true
             return not always_false
         return True
+
+
+def _norm_len(t):
+    """len(&S) where S is the loop-carried pointee of a `&mut [T]` (elements may have been swapped or overwritten): a slice cannot be
+    resized through a reference, so its length is that of the slice on loop entry."""
+    while (isinstance(t, tuple) and t and t[0] == "len" and t[1][0] == "refv" and t[1][1][0] == "loopvar"
+           and t[1][1][2][1] and t[1][1][2][1][-1] in ("d", ("d",))):
+        t = ("len", ("refv", t[1][1][3]))
+    return t
+
+
+def _range_item_below(idx, bound):
+    while isinstance(idx, tuple) and idx and idx[0] == "cast":
+        idx = idx[2]
+    if not (isinstance(idx, tuple) and idx and idx[0] == "vfield" and idx[2] == "Some" and idx[1][0] == "app"
+            and "Iterator for core::ops::range::Range<" in idx[1][1] and idx[1][1].endswith(">::next")):
+        return False
+    it = idx[1][2][0]
+    if it[0] in ("refv", "ref"):
+        it = it[1]
+    if it[0] == "loopvar":
+        it = it[3]
+    if it[0] == "app" and it[1].endswith("IntoIterator>::into_iter") and it[2]:
+        it = it[2][0]
+    if not (it[0] == "adt" and it[1] == "core::ops::range::Range" and len(it[3]) == 2):
+        return False
+    return _norm_len(it[3][1]) == _norm_len(bound)
 
 
 def loop_accumulators(P, body, eng, loop_leaves, trips=None):
@@ -354,6 +383,15 @@ def loop_accumulators(P, body, eng, loop_leaves, trips=None):
             for pre, nn in (trips or {}).items():
                 if ty.startswith(pre):
                     ty = pre
+            if ty == "core::ops::range::Range<usize>":
+                # `for i in a..xs.len()`: at most as many iterations as a slice has elements (< 2^63)
+                rv = [s for s in _sub(eng.freeze(lfs[0].state, v)) if s[0] == "loopvar" and s[1] == h and s[2] == (i, ())]
+                init = rv[0][3] if rv else None
+                if init is not None and init[0] == "app" and init[1].endswith("IntoIterator>::into_iter") and init[2]:
+                    init = init[2][0]
+                if (init is not None and init[0] == "adt" and init[1] == "core::ops::range::Range" and len(init[3]) == 2 and init[3][0][0] == "int" and init[3][0][1] >= 0
+                        and init[3][1][0] == "len" and all(eng.freeze(lf.state, lf.state.frames[0].locals.get(i)) != rv[0] for lf in lfs)):
+                    n = 2 ** 63 if n is None else min(n, 2 ** 63)
             if ty in TRIP_BOUNDS or ty in (trips or {}):
                 lv = [s for s in _sub(eng.freeze(lfs[0].state, v)) if s[0] == "loopvar" and s[1] == h and s[2] == (i, ())]
                 if lv and all(eng.freeze(lf.state, lf.state.frames[0].locals.get(i)) != lv[0] for lf in lfs):
